@@ -328,8 +328,10 @@ def _run_law(case, log, probes):
             probes["labels_exhausted"] = 1
         except bm.CaseTooExpensive:
             probes["truncated_designed_bound"] = 1
-    if n_q > 0 and not lab.by_seed and lab.foreign == 0 and not probes.get("labels_exhausted"):
-        # torchsde answered queries without a single draw through torch.randn (of any shape): the randomness
+    n_inner = sum(1 for a in answers if (a[1], a[2]) != tuple(dom)) if "dom" in locals() else 0
+    if n_inner > 0 and not lab.by_seed and lab.foreign == 0 and not probes.get("labels_exhausted"):
+        # torchsde answered queries strictly inside the interval (which cannot be served from a supplied W/H alone)
+        # without a single draw through torch.randn (of any shape): the randomness
         # seam is not engaged (e.g. the library switched to another sampling API). That is a harness limitation to be
         # reported as such (exit 2), never a verdict about the law.
         from ..core import HarnessError
